@@ -32,13 +32,13 @@ void begin_run(const ShapeDesc& sd, RunCtl& ctl, RunState& rs) {
   w.fault_node = ctl.plan.fault_node; w.fault_call = ctl.plan.fault_call;
   w.throw_at = ctl.plan.anon_fault;
   // KNOWN FINDING value_copy_throw_terminates: excluded by construction = value copies/moves never throw
-  w.tracked_faults = !known("value_copy_throw_terminates");
+  // (narrowed: only the shapes in which a throwing value copy can meet one of the unconditionally-noexcept set_value paths, see plan.hpp)
+  w.tracked_faults = !known("value_copy_throw_terminates") || !copy_throw_terminates_class(sd) || vk::ctx().argi("force-tracked-faults", 0);
   rs.ledger.id = 1;
   if (rs.use_inplace) rs.inplace = new unifex::inplace_stop_source();
   ctl.out = Outcome();
   g_diverged = false;
   g_compare = ctl.plan.anon_fault < 0;
-  (void)sd;
 }
 
 static void real_stop(RunState& rs) {
